@@ -148,7 +148,9 @@ pub fn main(args: &[String]) {
         files.insert(p.to_string(), json!({"text": format!("import {{ Base{q}{l} }} from {q}\ninterface Mid{p}{l} : Base{q}{l} {{\n  method midMethod{l}(): int\n}}\n")}));
         files.insert(far.to_string(), json!({"text": format!("import {{ Mid{p}{l} }} from {p}\nclass Impl{far}{l}(val v{l}: int) : Mid{p}{l} {{\n  method midMethod{l}(): int = this.v{l}\n}}\n")}));
         ops.push(json!({"op": "Init", "files": files}));
-        for required in [&["renamedRequirementOfTheRoot"][..], &[][..], &["requiredByTheRoot"][..]] {
+        // (the last step writes the two names in the other order, after both were dropped and one restored: the order
+        //  in which a long-running server first saw them is then not the order a fresh server sees them in)
+        for required in [&["renamedRequirementOfTheRoot"][..], &[][..], &["requiredByTheRoot"][..], &["alsoRequiredByTheRoot", "requiredByTheRoot"][..]] {
           let mut u = serde_json::Map::new();
           u.insert(q.to_string(), json!({"text": root(required)}));
           ops.push(json!({"op": "Update", "u": u}));
